@@ -25,6 +25,7 @@ ASSUMPTIONS = ['two histories reaching the same hidden-state digest have the sam
                'platform is bit-reproducible with one torch thread (self-test: every pristine reference is computed twice in separate processes)']
 CHUNK = 1
 MIXED = ['dwt_per', 'dtf_a', 'scat1', 'dwt1d_pc']          # modules that also receive a call with an input of the other float dtype
+BOUND2_QUICK = ['same_instance_two_inputs', 'inverse_dtcwt_twice', 'scat_same_instance']   # the other harnesses get bound 2 in the thorough tier
 HARNESSES = ['two_constructs', 'same_instance_two_inputs', 'inverse_dtcwt_twice', 'construct_vs_call', 'f32_vs_f64', 'scat_same_instance']
 
 
@@ -48,17 +49,20 @@ def depth(tier):
 
 def bounds(tier):
     return {'history_depth': depth(tier), 'alphabet': len(all_ops()), 'pool': purity.ORDER, 'call_pairs': 'all ordered pairs of the 32 calls',
-            'schedule_bounds': {'every_line': 1 if tier == 'quick' else 2, 'visible_lines': 2 if tier == 'quick' else 3}, 'harnesses': HARNESSES}
+            'schedule_bounds': {'every_line': 1 if tier == 'quick' else 2, 'visible_lines': ('2 on %s' % BOUND2_QUICK) if tier == 'quick' else 3}, 'harnesses': HARNESSES}
 
 
 def plan(tier):
     # pristine references: every operation as the first operation of a fresh interpreter, computed twice (determinism self-test)
     ops = [op for op in all_ops() if op[0] != 'mixed']
-    with concurrent.futures.ThreadPoolExecutor(max_workers=12) as ex:
+    # determinism self-test: in the quick tier one call per module (plus constructions and loads) is computed twice
+    twice = [op for op in ops if op[0] != 'call' or (op[2] == 1 and op[3] == 'grad') or tier == 'thorough']
+    with concurrent.futures.ThreadPoolExecutor(max_workers=14) as ex:
         r1 = list(ex.map(purity.pristine, ops))
-        r2 = list(ex.map(purity.pristine, ops))
-    for op, a, b in zip(ops, r1, r2):
-        if a != b:
+        r2 = list(ex.map(purity.pristine, twice))
+    first = {_key(op): a for op, a in zip(ops, r1)}
+    for op, b in zip(twice, r2):
+        if first[_key(op)] != b:
             raise SystemExit('BROKEN: platform not bit-reproducible for %r across fresh interpreters' % (op,))
     ref = {_key(op): a for op, a in zip(ops, r1)}
     items = [{'kind': 'gradmode', 'ref': ref}]
@@ -81,10 +85,14 @@ def plan(tier):
     for h in HARNESSES:
         items.append({'kind': 'free', 'harness': h, 'runs': 20 if tier == 'quick' else 100})
         for order in (0, 1):
-            items.append({'kind': 'sched', 'harness': h, 'order': order, 'bound': 1 if tier == 'quick' else 2, 'only_visible': False, 'part': [1, 0]})
-            nparts = 4 if tier == 'quick' else 8
+            for r in range(6):
+                items.append({'kind': 'sched', 'harness': h, 'order': order, 'bound': 1 if tier == 'quick' else 2, 'only_visible': False, 'part': [6, r]})
+            nparts = 8 if tier == 'quick' else 16
+            if tier == 'quick' and (h not in BOUND2_QUICK or order != BOUND2_QUICK.index(h) % 2):
+                continue
             for r in range(nparts):
                 items.append({'kind': 'sched', 'harness': h, 'order': order, 'bound': 2 if tier == 'quick' else 3, 'only_visible': True, 'part': [nparts, r]})
+    items.sort(key=lambda it: 0 if it['kind'] == 'sched' and it['only_visible'] else (1 if it['kind'] == 'sched' else 2))   # longest first
     return items
 
 
